@@ -23,7 +23,7 @@ FUNCTIONS = ["BaseTaskPool.get_group_ids", "TaskPool._generate_group_name", "Tas
              "SimpleTaskPool.start", "BaseTaskPool._start_task", "TaskGroupRegister.add"]
 
 VOCAB = ("", "apply-fa-group-0", "map-fa-group-1", "x")
-OPS = ("apply_u_fa", "apply_u_fb", "apply_named", "map_u_fa", "map_named", "starmap_u_fb", "dstarmap_u_fa", "cgroup", "rel", "flush", "nop")
+OPS = ("apply_u_fa", "apply_u_fb", "apply_named", "map_u_fa", "map_named", "starmap_u_fb", "dstarmap_u_fa", "cgroup", "rel", "flush", "cancel", "nop")
 NOP = len(OPS) - 1
 
 
@@ -51,6 +51,8 @@ def _act(w, it, live_names, x, a):
         it.release(a)
     elif name == "flush":
         it.flush(True)
+    elif name == "cancel":
+        it.cancel(a)        # accepted or refused (ended / unknown id): neither changes which group an id belongs to
     if r is None and gen is not None:
         w.fail(1005)        # an *unnamed* request was refused: the generated name collided (nothing else can refuse it here)
     if r is not None and gen is not None:
@@ -184,7 +186,7 @@ def families(tier):
     pre = ["size >= 0", "0 <= x1 < 7", "0 <= a1 < 4", "0 <= x2 <= %d" % NOP, "0 <= a2 < 4", "0 <= x3 <= %d" % NOP, "0 <= a3 < 4", "t >= 0"]
     if not thorough:
         pre += ["x4 == %d" % NOP, "a4 == 0", "size == 1 or size >= 6", "t >= 4", "a2 <= 2", "a3 <= 1",
-                "x3 == 0 or x3 == 2 or x3 == 3 or x3 == 7 or x3 == %d" % NOP, "a1 <= 2"]
+                "x3 == 0 or x3 == 2 or x3 == 3 or x3 == 7 or x3 == 10 or x3 == %d" % NOP, "a1 <= 2"]
         parts = parts_product(x1=range(7), x2=range(NOP))
     else:
         pre += ["x4 == %d" % NOP, "a4 == 0", "size <= 2 or size >= 6", "t >= 4"]
